@@ -51,7 +51,7 @@ PROPS = {
             {"kind": "verus", "unit": "grepeat"},
             {"kind": "verus", "unit": "grepeatarm"},
             {"kind": "verus", "unit": "comb"},
-            {"kind": "verus", "unit": "perm"},
+            {"kind": "verus", "unit": "permut"},
         ],
         "unreached": [
             "that each searching / iterating native consumes one budget item per unit of work (under contract: the unranking loops of combination / combination_with_replacement / permutation here, the scan loops of sequence take_while / skip_until under C08/C15)",
@@ -191,7 +191,7 @@ PROPS = {
         "units": [
             {"kind": "verus", "unit": "seq"},
             {"kind": "verus", "unit": "comb"},
-            {"kind": "verus", "unit": "perm"},
+            {"kind": "verus", "unit": "permut"},
             {"kind": "verus", "unit": "seqsearch"},
             {"kind": "verus", "unit": "rangector"},
             {"kind": "verus", "unit": "idx"},
